@@ -398,7 +398,12 @@ def _issuperset(path):
         spec = ForAll([t], Implies(And(0 <= t, t < seqs.slen(xs.s)), seqs.mem(u.items0, seqs.at(xs.s, t))), patterns=[seqs.at(xs.s, t)])
         path.oblige('post/every-item-present', 'post', truthy(outcome[1]) == spec)
         path.oblige('post/unchanged', 'post', And(view(u)[0] == u.items0, view(u)[1] == u.seen0))
-    return {'self': u, 'items': xs}, None, finish
+    # should the function be written as an explicit loop with an early `return False`: its invariant (stated over the ghost
+    # index only, no local names): every item before position k is present
+    t = Int('t')
+    loop = LoopSpec(lambda e, k: [('all-present-so-far', ForAll([t], Implies(And(0 <= t, t < k), seqs.mem(u.items0, seqs.at(xs.s, t))),
+                                                                 patterns=[seqs.at(xs.s, t)]))])
+    return {'self': u, 'items': xs}, {0: loop}, finish
 
 
 from z3 import Implies  # noqa: E402
